@@ -32,6 +32,7 @@ from bv.props.fsspy import Spy, OsProxy, _abs
 DEST = 'dest.txt'
 PART = 'dest.txt.part'
 TARGET = 'target.bin'       # what a symlinked destination points to
+NOWHERE = 'nowhere'         # ... or the name a link to nothing points to
 
 
 # errnos injected per call (round 1: these are always swept with kills) ...
@@ -508,7 +509,22 @@ def win_module():
     return mod
 
 
-class WinSpy(Spy):
+class LinkAware:
+    """a destination path that is a symbolic link: the path the link resolves to IS the destination for readers,
+    so a save that publishes by replacing the link's target publishes to the destination as well"""
+    aliases = ()
+
+    def role(self, p):
+        if p in self.aliases:
+            return 'dest'
+        return super().role(p)
+
+
+class PosixSpy(LinkAware, Spy):
+    pass
+
+
+class WinSpy(LinkAware, Spy):
     """the recorder, installed into the Windows copy"""
 
     def install(self):
@@ -977,6 +993,20 @@ class C04(Property):
             C04._default_part = name
         return C04._default_part
 
+    def part_path(self, case, dest):
+        """where the part file of this case lies: the explicit part_file in the destination's directory, else what the
+        CURRENT source chooses for this very destination (the constructor is evaluated; it touches nothing)"""
+        if case.get('pname'):
+            return os.path.join(os.path.dirname(dest), case['pname'])
+        try:
+            if case.get('win'):
+                fu = win_module()
+            else:
+                import boltons.fileutils as fu
+            return os.fspath(fu.AtomicSaver(dest).part_path)
+        except Exception:
+            return os.path.join(os.path.dirname(dest), self.pname(case))
+
     def prepare(self, case):
         d = tempfile.mkdtemp(prefix='bvC04-')
         dest = os.path.join(d, DEST)
@@ -989,14 +1019,14 @@ class C04(Property):
             if real != dest:
                 os.symlink(TARGET, dest)
         elif case.get('sym') == 'dangling':
-            os.symlink('nowhere', dest)      # a link to nothing: readers find no file, the NAME exists
+            os.symlink(NOWHERE, dest)      # a link to nothing: readers find no file, the NAME exists
         if case['part'] and case.get('psym'):
             # the part file's name is taken by a symbolic link pointing at the destination
-            os.symlink(DEST, os.path.join(d, self.pname(case)))
+            os.symlink(DEST, self.part_path(case, dest))
         elif case['part']:
-            with open(os.path.join(d, self.pname(case)), 'wb') as f:
+            with open(self.part_path(case, dest), 'wb') as f:
                 f.write(b'\x09\x09')
-            os.chmod(os.path.join(d, self.pname(case)), 0o640)
+            os.chmod(self.part_path(case, dest), 0o640)
         if case.get('kind') == 'mv':    # a finished part file, to be published by atomic_rename / replace
             with open(os.path.join(d, PART), 'wb') as f:
                 f.write(b'\x01' * sum(case['sizes']))
@@ -1005,12 +1035,14 @@ class C04(Property):
         return d, dest
 
     def do_save(self, fu, dest, case, spy):
+        if case.get('sym'):
+            spy.aliases = (os.path.realpath(dest),)
         if case.get('kind') == 'mv':
             spy.part_path = os.path.abspath(dest + '.part')
         elif self.stale(case):
             # a part file already lies there under its documented name: calls on it count from the start
             # (otherwise the recorder learns the part path from the first open for writing)
-            spy.part_path = os.path.join(os.path.dirname(os.path.abspath(dest)), self.pname(case))
+            spy.part_path = os.path.abspath(self.part_path(case, os.path.abspath(dest)))
         if case.get('prior'):
             # an EARLIER save in the same process (another saver object, another destination in the same directory)
             # suffered an operating-system failure: nothing of it may leak into the recorded save
@@ -1067,19 +1099,27 @@ class C04(Property):
             return fh.read()
 
     def dir_letter(self, d, dest, case):
-        """what a listing of the directory shows of the part file's name: - absent, p present,
-        l present and a hard link to the destination's inode (the window between link and unlink)"""
-        if part_is_dest(case):
-            return '-'
+        """what a listing of the directory shows besides the destination (the harness owns the directory: any other
+        name is the part file, whatever the current source calls it): - nothing, p a part file,
+        l a part file that is a hard link to the inode readers of the destination reach (the window between link and unlink)"""
         try:
-            sp = os.lstat(os.path.join(d, self.pname(case)))
+            names = [n for n in os.listdir(d) if n not in (DEST, TARGET, NOWHERE) and not n.startswith(DEST + '.prior')]
         except OSError:
             return '-'
+        if not names:
+            return '-'
         try:
-            sd = os.lstat(dest)
+            sd = os.stat(dest)
         except OSError:
             return 'p'
-        return 'l' if (sp.st_ino, sp.st_dev) == (sd.st_ino, sd.st_dev) else 'p'
+        for n in names:
+            try:
+                sp = os.lstat(os.path.join(d, n))
+            except OSError:
+                continue
+            if (sp.st_ino, sp.st_dev) == (sd.st_ino, sd.st_dev):
+                return 'l'
+        return 'p'
 
     _strace = None
 
@@ -1119,8 +1159,9 @@ class C04(Property):
                 obs['events'], obs['calls'] = parsed
             obs['final'] = classify(old, new, self.look(dest))
             names = sorted(os.listdir(d))
-            obs['part'] = 1 if self.pname(case) in names else 0
-            obs['extra'] = [n for n in names if n not in (DEST, TARGET, self.pname(case))]
+            pp = self.part_path(case, dest)
+            obs['part'] = 1 if os.path.lexists(pp) else 0
+            obs['extra'] = [n for n in names if n not in (DEST, TARGET, NOWHERE, os.path.basename(pp))]
         except subprocess.TimeoutExpired:
             obs['out'] = 'exc:CaseTimeout'
         finally:
@@ -1182,7 +1223,7 @@ class C04(Property):
             plan = {f[0]: f[1] for f in (case.get('fault'), case.get('fault2')) if f} or None
             if case.get('win'):
                 fu = win_module()
-            spy = (WinSpy if case.get('win') else Spy)(dest, plan=plan)
+            spy = (WinSpy if case.get('win') else PosixSpy)(dest, plan=plan)
             try:
                 self.do_save(fu, dest, case, spy)
             except BODY_EXC:
@@ -1200,8 +1241,9 @@ class C04(Property):
             obs['fired'] = int(any(r.get('injected') for r in spy.log))
             obs['final'] = classify(old, new, self.look(dest))
             names = sorted(os.listdir(d))
-            obs['part'] = 1 if (self.pname(case) in names and not part_is_dest(case)) else 0
-            obs['extra'] = [n for n in names if n not in (DEST, TARGET, self.pname(case)) and not n.startswith(DEST + '.prior')]
+            pp = self.part_path(case, dest)
+            obs['part'] = 1 if (os.path.lexists(pp) and not part_is_dest(case)) else 0
+            obs['extra'] = [n for n in names if n not in (DEST, TARGET, NOWHERE, os.path.basename(pp)) and not n.startswith(DEST + '.prior')]
             obs['n_calls'] = spy.n
         finally:
             os.chdir('/')
@@ -1276,7 +1318,7 @@ class C04(Property):
                                 if case.get('win'):
                                     self.do_save(win_module(), destk, case, WinSpy(destk, kill_at=k, plan=plan))
                                 else:
-                                    self.do_save(fu, destk, case, Spy(destk, kill_at=k, plan=plan))
+                                    self.do_save(fu, destk, case, PosixSpy(destk, kill_at=k, plan=plan))
                             except BaseException:
                                 pass
                         finally:
@@ -1427,7 +1469,10 @@ class C04(Property):
                 if not published and letter == 'n' and old_letter != 'n':
                     return Failure('early-publication', 'new content visible when killed before call #%d, before the publishing event' % k)
         # a with-block that exits normally leaves the complete new content and no part file
-        refused = (not case['ow']) and (case['dest'] is not None or case.get('reuse') == 1 or case.get('sym') == 'dangling')
+        refused = (not case['ow']) and (case['dest'] is not None or case.get('reuse') == 1)
+        if (not case['ow']) and case.get('sym') == 'dangling' and obs['out'] != 'ok':
+            # overwrite=False over a link to nothing: the NAME exists, no file does - refusing is as good as saving
+            refused = True
         blocked = self.stale(case) and not case['owp']
         if obs.get('fired'):
             if case.get('fault') and case['fault'][1] == 'K':
